@@ -74,12 +74,74 @@ pub fn check_c01(c: &TV, acc: &mut Acc, record: bool) -> Verdict {
     }
 }
 
+// ------------------------------------------------------------------------------------------------
+// the built-in codecs at REAL static types. The run-time bridge hands every container to the library instantiated at
+// the bridge's own element type; whatever a codec does for one particular element or key type (the library already
+// treats u8 elements specially) is only reached when the container has that type at compile time.
+
+#[derive(Debug, Clone, Serialize, Deserialize)]
+pub struct StaticTV {
+    pub idx: usize,
+    pub val: Val,
+}
+
+use vcat::statics::static_types;
+
+pub fn static_tv_strategy() -> BoxedStrategy<StaticTV> {
+    let table = static_types();
+    (0..table.len())
+        .prop_flat_map(move |i| {
+            let cfg = if i % 3 == 0 { ValCfg { small_alphabet: true, max_len: 6, long: false, ..ValCfg::default() } } else { ValCfg { max_len: 8, long: false, ..ValCfg::default() } };
+            vmodel::gen::val_strategy(&table[i].1, cfg).prop_map(move |val| StaticTV { idx: i, val })
+        })
+        .boxed()
+}
+
+/// round trip and wire format in one: decode(encode(v)) == v and encode(v) == the reference encoding (for hash
+/// containers: same length, and the bytes decode to v)
+pub fn check_static(c: &StaticTV, acc: &mut Acc, record: bool) -> Verdict {
+    let table = static_types();
+    let Some((name, ty, f)) = table.get(c.idx) else { return Verdict::Skip };
+    if record {
+        acc.case(&format!("static type {name}"), hash_json(c), !matches!(&c.val, Val::Seq(x) if x.is_empty()));
+    }
+    let (bytes, back) = match crate::run::guarded(|| f(&c.val)) {
+        Ok(Ok(x)) => x,
+        Ok(Err(e)) => return Verdict::Fail(format!("{name} = {}: {e}", c.val.brief())),
+        Err(p) => return Verdict::Fail(format!("{name} = {}: panic {p}", c.val.brief())),
+    };
+    if canon(ty, &back) != canon(ty, &c.val) {
+        return Verdict::Fail(format!("{name}: round trip changed the value: wrote {} read {} (bytes {})", c.val.brief(), back.brief(), hex(&bytes)));
+    }
+    let want = match vmodel::refcodec::ref_encode(ty, &c.val) {
+        Ok(fr) => fr.bytes,
+        Err(e) => return Verdict::Fail(format!("HARNESS: the model cannot encode {} as {name}: {e:?}", c.val.brief())),
+    };
+    let hashy = ty.any(&|t| matches!(t, Ty::HashSet(_) | Ty::HashMap(..)));
+    let dup_keys = matches!(&c.val, Val::Map(_)) || ty.any(&|t| matches!(t, Ty::BTreeMap(..) | Ty::HashMap(..) | Ty::HashSet(_) | Ty::BTreeSet(_)));
+    if !hashy && !dup_keys && bytes != want {
+        return Verdict::Fail(format!("{name} = {} encodes as {}; the format says {}", c.val.brief(), hex(&bytes), hex(&want)));
+    }
+    if dup_keys {
+        // sets and maps collapse duplicates and (hash ones) choose their order: what they wrote must denote the value
+        match vmodel::refcodec::ref_decode(ty, &bytes) {
+            Ok((v, _)) if canon(ty, &v) == canon(ty, &c.val) => {}
+            other => return Verdict::Fail(format!("{name} = {} encodes as {}, which the format reads as {:?}", c.val.brief(), hex(&bytes), other.map(|x| x.0.brief()))),
+        }
+    }
+    Verdict::Pass
+}
+
 pub fn run_c01(cx: &Cx) -> PropResult {
     let depth = if cx.tier == crate::run::Tier::Quick { 3 } else { 4 };
     let per_shard = cx.n(40_000, 1_000_000);
     let acc = parallel(cx, &|shard, acc| {
         let strat = tv_strategy(depth, ValCfg::default());
-        drive(crate::run::tag_seed(derive_seed(cx.seed, cx.prop, shard as u64, 0), 0), &strat, per_shard, acc, &|c: &TV| to_json(c), &mut |c, a, r| check_c01(c, a, r));
+        if drive(crate::run::tag_seed(derive_seed(cx.seed, cx.prop, shard as u64, 0), 0), &strat, per_shard, acc, &|c: &TV| to_json(c), &mut |c, a, r| check_c01(c, a, r)) {
+            return;
+        }
+        let strat = static_tv_strategy();
+        drive(crate::run::tag_seed(derive_seed(cx.seed, cx.prop, shard as u64, 8), 8), &strat, per_shard / 4, acc, &|c: &StaticTV| to_json(&json!({"Static": c})), &mut |c, a, r| check_static(c, a, r));
     });
     let mut acc = acc;
     reduce_violations(&mut acc, &|c, a, r| check_c01(c, a, r));
@@ -118,6 +180,10 @@ fn known_f16(r: &mut PropResult) {
 }
 
 pub fn replay_c01(case: &Value) -> Verdict {
+    if let Some(t) = case.get("Static") {
+        let c: StaticTV = serde_json::from_value(t.clone()).expect("replay case");
+        return check_static(&c, &mut Acc::new(), false);
+    }
     let c: TV = serde_json::from_value(case.clone()).expect("replay case");
     check_c01(&c, &mut Acc::new(), false)
 }
@@ -264,7 +330,11 @@ pub fn run_c04(cx: &Cx) -> PropResult {
         }
         // the public serialize_iterator: which of the two layouts is written depends on the size hint alone
         let strat = iter_case_strategy();
-        drive(crate::run::tag_seed(derive_seed(cx.seed, cx.prop, shard as u64, 3), 3), &strat, per_shard / 5, acc, &|c: &IterCase| to_json(&json!({"Iter": c})), &mut |c, a, r| check_c04_iter(c, a, r));
+        if drive(crate::run::tag_seed(derive_seed(cx.seed, cx.prop, shard as u64, 3), 3), &strat, per_shard / 5, acc, &|c: &IterCase| to_json(&json!({"Iter": c})), &mut |c, a, r| check_c04_iter(c, a, r)) {
+            return;
+        }
+        let strat = static_tv_strategy();
+        drive(crate::run::tag_seed(derive_seed(cx.seed, cx.prop, shard as u64, 8), 8), &strat, per_shard / 5, acc, &|c: &StaticTV| to_json(&json!({"Static": c})), &mut |c, a, r| check_static(c, a, r));
     });
     let mut acc = acc;
     reduce_violations(&mut acc, &|c, a, r| check_c04(c, a, r));
@@ -361,6 +431,10 @@ pub fn check_c04_iter(c: &IterCase, acc: &mut Acc, record: bool) -> Verdict {
 }
 
 pub fn replay_c04(case: &Value) -> Verdict {
+    if let Some(t) = case.get("Static") {
+        let c: StaticTV = serde_json::from_value(t.clone()).expect("replay case");
+        return check_static(&c, &mut Acc::new(), false);
+    }
     if let Some(i) = case.get("Iter") {
         let c: IterCase = serde_json::from_value(i.clone()).expect("replay case");
         return check_c04_iter(&c, &mut Acc::new(), false);
